@@ -111,8 +111,19 @@ Freeze ==
 
 \* ---- phase 2: the session ------------------------------------------------------
 Files(p)  == {<<c.pkg, c.file>> : c \in Range(p.ctrls)} \cup {<<CtrlOf(p, m).pkg, m.file>> : m \in Range(p.methods)}
-ErrorDiags(p) == {m \in Range(p.methods) : IsApi(m) /\ (~WellLinked(p, m) \/ (p.cfg.enforce /\ EffectiveSecurity(p.cfg, CtrlOf(p, m), m) = <<>>))}
+\* cfg.asCoded (set only when the machine is run against traces of the real code): acceptance as the validators are coded, i.e. with
+\* the recorded deviations of Project!WellLinkedAsCoded; cfg.cmd: which generate command runs (default: spec-and-routes)
+AsCoded(p) == "asCoded" \in DOMAIN p.cfg /\ p.cfg.asCoded
+CmdOf(p) == IF "cmd" \in DOMAIN p.cfg THEN p.cfg.cmd ELSE "spec-and-routes"
+Linked(p, m) == IF AsCoded(p) THEN WellLinkedAsCoded(p, m) ELSE WellLinked(p, m)
+ErrorDiags(p) == {m \in Range(p.methods) : IsApi(m) /\ (~Linked(p, m) \/ (p.cfg.enforce /\ EffectiveSecurity(p.cfg, CtrlOf(p, m), m) = <<>>))}
 SpecBuildable(p) == SchemesDeclared(p)
+\* the built document does not validate when a documented path does not begin with a slash (the concatenation of an empty or
+\* slash-less controller prefix and a slash-less method route): the command then fails and writes nothing
+SpecValidatable(p) == /\ \A o \in DocumentedOps(p) : Len(o.path) > 0 /\ Ch(o.path, 1) = "/"
+                      /\ \A m \in Range(p.methods) : (IsApi(m) /\ ~m.hidden) => PathParamsMatch(p, m)     \* (implied by WellLinked; not by the as-coded variant)
+\* as coded, some malformed annotation properties surface only while the metadata is reduced (Project!LateAliasError)
+ReduceFails(p) == AsCoded(p) /\ \E m \in Range(p.methods) : IsApi(m) /\ LateAliasError(m)
 ConfigValid(cfg) == cfg.engine \in {"gin", "echo", "mux", "chi", "fiber"} /\ cfg.version \in {"3.0.0", "3.1.0"}
 
 Fail(msg) == pc' = "failed" /\ exit' = [code |-> 1, msg |-> msg]
@@ -137,12 +148,22 @@ VisitFile(f) ==
     /\ pc' = IF pending' = {} THEN "validate" ELSE "visit"
     /\ UNCHANGED <<proj, order, serial, fsys, valid30, valid31, exit>>
 
+Perms(S) == {s \in [1..Cardinality(S) -> S] : \A i, j \in DOMAIN s : i # j => s[i] # s[j]}
+\* every pending file visited, in some order: the composition of the VisitFile steps (one GenerateGraph call of the code)
+VisitAll ==
+    /\ pc = "visit" /\ pending # {}
+    /\ \E o \in Perms(pending) :
+         LET RECURSIVE ctrlsOf(_) ctrlsOf(i) == IF i > Len(o) THEN <<>>
+                 ELSE SelectSeq([k \in DOMAIN proj.ctrls |-> proj.ctrls[k].id], LAMBDA id : <<(CHOOSE c \in Range(proj.ctrls) : c.id = id).pkg, (CHOOSE c \in Range(proj.ctrls) : c.id = id).file>> = o[i]) \o ctrlsOf(i + 1)
+         IN  visited' = visited \o ctrlsOf(1)
+    /\ pending' = {} /\ pc' = "validate"
+    /\ UNCHANGED <<proj, order, serial, fsys, valid30, valid31, exit>>
+
 Validate ==
     /\ pc = "validate"
     /\ IF ErrorDiags(proj) # {} THEN Fail("diagnostics") ELSE pc' = "reduce" /\ UNCHANGED exit
     /\ UNCHANGED <<proj, pending, visited, order, serial, fsys, valid30, valid31>>
 
-Perms(S) == {s \in [1..Cardinality(S) -> S] : \A i, j \in DOMAIN s : i # j => s[i] # s[j]}
 NameOfCtrl(id) == (CHOOSE c \in Range(proj.ctrls) : c.id = id).name
 \* import serials are handed out first-come while the controllers are reduced
 \* TLC cannot order strings: controller names come from a fixed alphabet, ranked here (ties broken by id)
@@ -157,16 +178,17 @@ Reduce ==
          /\ order' = o
          /\ LET eff == IF SortBeforeReduce THEN SortedByName(Range(o)) ELSE o      \* the order in which serials are handed out
             IN  serial' = [id \in Range(eff) |-> CHOOSE i \in DOMAIN eff : eff[i] = id]
-    /\ pc' = "routes"
-    /\ UNCHANGED <<proj, pending, visited, fsys, valid30, valid31, exit>>
+    /\ IF ReduceFails(proj) THEN Fail("failed to reduce the metadata")
+       ELSE pc' = (IF CmdOf(proj) = "spec" THEN "spec30" ELSE "routes") /\ UNCHANGED exit
+    /\ UNCHANGED <<proj, pending, visited, fsys, valid30, valid31>>
 
 \* the routes file lists controllers sorted by name and mentions each controller's serial
 RoutesContent == [c \in {x.id : x \in Range(proj.ctrls)} |-> serial[c]]
 WriteRoutes ==
     /\ pc = "routes"
     /\ fsys' = [fsys EXCEPT !.routes = TRUE, !.routesContent = RoutesContent]
-    /\ pc' = "spec30"
-    /\ UNCHANGED <<proj, pending, visited, order, serial, valid30, valid31, exit>>
+    /\ IF CmdOf(proj) = "routes" THEN pc' = "done" /\ exit' = [code |-> 0, msg |-> ""] ELSE pc' = "spec30" /\ UNCHANGED exit
+    /\ UNCHANGED <<proj, pending, visited, order, serial, valid30, valid31>>
 
 BuildSpec30 ==
     /\ pc = "spec30"
@@ -174,9 +196,11 @@ BuildSpec30 ==
     /\ UNCHANGED <<proj, pending, visited, order, serial, fsys, valid30, valid31>>
 
 ValidateSpec30 ==
-    /\ pc = "valid30" /\ valid30' = TRUE
-    /\ pc' = IF proj.cfg.version = "3.1.0" THEN "spec31" ELSE "write"
-    /\ UNCHANGED <<proj, pending, visited, order, serial, fsys, valid31, exit>>
+    /\ pc = "valid30"
+    /\ IF SpecValidatable(proj)
+       THEN valid30' = TRUE /\ pc' = (IF proj.cfg.version = "3.1.0" THEN "spec31" ELSE "write") /\ UNCHANGED exit
+       ELSE Fail("the OpenAPI document does not validate") /\ UNCHANGED valid30
+    /\ UNCHANGED <<proj, pending, visited, order, serial, fsys, valid31>>
 
 BuildSpec31 == pc = "spec31" /\ valid30 /\ pc' = "valid31" /\ UNCHANGED <<proj, pending, visited, order, serial, fsys, valid30, valid31, exit>>
 ValidateSpec31 == pc = "valid31" /\ valid31' = TRUE /\ pc' = "write" /\ UNCHANGED <<proj, pending, visited, order, serial, fsys, valid30, exit>>
@@ -225,12 +249,12 @@ C20_ConfigFirst == [][~ConfigValid(proj.cfg) => (pending' = {} /\ fsys' = fsys)]
 C14_Terminates == (pc = "config") ~> (pc \in {"done", "failed"})
 C14_ExitSane == (pc = "failed" => exit.code = 1 /\ exit.msg # "") /\ (pc = "done" => exit.code = 0)
 C02_DocSubsetServed == pc # "author" => DocSubsetServed(proj)
-C01_SpecIsDocumented == pc = "done" => fsys.specContent = DocumentedOps(proj)
+C01_SpecIsDocumented == (pc = "done" /\ CmdOf(proj) # "routes") => fsys.specContent = DocumentedOps(proj)
 \* determinism: what ends up on disk does not depend on the schedule. With serials handed out in FindByKind order this is
 \* false as soon as two controllers need serials; with SortBeforeReduce it holds.
 Canonical == [c \in {x.id : x \in Range(proj.ctrls)} |->
                  LET s == SortedByName({x.id : x \in Range(proj.ctrls)}) IN CHOOSE i \in DOMAIN s : s[i] = c]
-C13_Deterministic == pc = "done" => fsys.routesContent = Canonical
+C13_Deterministic == (pc = "done" /\ CmdOf(proj) # "spec") => fsys.routesContent = Canonical
 
 --------------------------------------------------------------------------
 Expect(p) == [ops |-> DocumentedOps(p), security |-> OpSecurity(p), enforceOk |-> EnforceOk(p), schemesDeclared |-> SchemesDeclared(p),
